@@ -177,7 +177,8 @@ def standin_reproject(input_data, output_projection=None, shape_out=None, return
     arr, _wcs = input_data
     fin = arr[np.isfinite(arr)]
     v = fin[0] if fin.size else np.nan
-    REPROJECTED.append((repr(float(v)), int(shape_out[0]) * int(shape_out[1])))
+    # (the caller's extra keyword arguments must reach the function in every mode: they are part of the record)
+    REPROJECTED.append((repr(float(v)) + repr(sorted(kw.items())), int(shape_out[0]) * int(shape_out[1])))
     return np.full(shape_out, v, dtype=np.float64)
 
 
@@ -221,12 +222,15 @@ class MultiWcsStage(object):
         # tuning knob: the reprojection chunk size (rows per chunk = MAXIMUM_CHUNK_SIZE // width); the shipped value
         # (128 Mpixel) never splits a small image, the small ones force several chunks per input
         self.chunk_pixels = (None, 3000, 12000, 700)[ch.draw(4, kind="chunk_size")]
+        # extra keyword arguments a caller hands to tile() for the reprojection function (e.g. order="nearest-neighbor")
+        self.reproject_kwargs = ({}, {}, {"order": "nearest-neighbor"}, {"order": 1, "roundtrip_coords": False})[ch.draw(4, kind="reproject_kwargs")]
 
     def describe(self):
         d = fitsgen.describe(self.col)
         d["stage"] = self.name
         d["tile_format"] = self.fmt
         d["chunk_pixels"] = self.chunk_pixels
+        d["reproject_kwargs"] = sorted(self.reproject_kwargs)
         return d
 
     def expected(self):
@@ -285,4 +289,4 @@ class MultiWcsStage(object):
         b = Builder(pio)
         proc = MultiWcsProcessor(coll)
         proc.compute_global_pixelization(b)
-        proc.tile(pio, standin_reproject, parallel=common.parg(parallel), **common.pkw())
+        proc.tile(pio, standin_reproject, parallel=common.parg(parallel), **dict(common.pkw(), **self.reproject_kwargs))
